@@ -1,4 +1,4 @@
-import PikaVerif.Lemmas.Deque2
+import PikaVerif.Lemmas.Deque3
 /-!
 # C17 — concurrent queues return every element exactly once (lock-free deque, back-end adapters)
 
@@ -139,6 +139,60 @@ theorem C17_deque_pop_false_only_if_empty_partial (n : Nat) (log : List Ev) (s s
     split at hret
     · simp at hret
     · split at hret <;> simp at hret
+
+/-- **Refinement to a list (partial: no stale link CAS).**  Seen through the abstraction
+    `contents` (values stored in the chain, left to right) every accepted step of every execution
+    is one of (`Lin`): nothing happens; a value is inserted at end `d` (`d = false`: in front,
+    `d = true`: at the back) and recorded as pushed; or the value at end `d` is removed, recorded as
+    popped and handed to the popping thread (it is the value that thread's `pop` returns).  These are
+    the transitions of a sequential double-ended queue, so every concurrent execution is
+    linearizable with the successful anchor CASes as linearisation points. -/
+theorem C17_deque_refines_list_partial (n : Nat) (log : List Ev) (s s' : St) (e : Ev)
+    (h : runLog step (init n) log = some s) (hstep : step s e = some s') (hs : s'.stale = false) :
+    Lin s s' :=
+  step_lin (inv_of_accepted h (stale_mono hstep hs)) hstep
+
+/-- **Sequential refinement (full strength).**  In single-threaded use no hypothesis is needed:
+    no link CAS is ever stale, so the deque behaves as a list — `push_left/right` insert in front /
+    at the back, `pop_left/right` remove and return the first / last element (`Lin`), a pop reports
+    "empty" only on the empty list, and the anchor/links always describe the list. -/
+theorem C17_deque_seq_refines_list (log : List Ev) (s s' : St) (e : Ev)
+    (h : runLog step (init 1) log = some s) (hstep : step s e = some s') :
+    s'.stale = false ∧ Lin s s' ∧ Glob s'.anchor s'.chain s'.nodes s'.used ∧
+    s'.pushed.Perm (s'.popped ++ contents s') ∧
+    (∀ t d a, e = .ld t a → s.pc t = .popLd d → s'.pc t = .retn false 0 → contents s = []) := by
+  have h' : runLog step (init 1) (log ++ [e]) = some s' := by
+    rw [runLog_append, h]; simp [runLog, hstep]
+  have hs' := (inv1_of_accepted h').fresh
+  have hi' := inv_of_accepted h' hs'
+  refine ⟨hs', C17_deque_refines_list_partial 1 log s s' e h hstep hs', hi'.glob, hi'.cons, ?_⟩
+  intro t d a he hpc hret
+  subst he
+  exact C17_deque_pop_false_only_if_empty_partial 1 log s s' h (stale_mono hstep hs') t a d hpc hstep hret
+
+/-! ## Non-vacuity -/
+
+/-- single-threaded: push_left 1, push_left 2 (with its stabilisation), pop_right returns 1 -/
+def seqLog : List Ev :=
+  [.inv 0 true false 1, .alloc 0 10, .ld 0 ⟨0, 0, 0, 0⟩, .cas 0 true, .ret 0 true 0,
+   .inv 0 true false 2, .alloc 0 20, .ld 0 ⟨10, 10, 0, 1⟩, .link 0 20 10, .cas 0 true,
+   .rd 0 ⟨10, 0⟩, .chk 0 true, .rd 0 ⟨0, 0⟩, .chk 0 true, .lcas 0 true, .cas 0 true, .ret 0 true 0,
+   .inv 0 false true 0, .ld 0 ⟨20, 10, 0, 3⟩, .chk 0 true, .rd 0 ⟨20, 1⟩, .cas 0 true, .free 0 10,
+   .ret 0 true 1]
+
+example : (runLog step (init 1) seqLog).map (fun s => (s.pushed, s.popped, contents s, s.stale)) =
+    some ([2, 1], [1], [2], false) := by decide
+
+/-- two threads: thread 1 helps the unfinished push_left of thread 0 and then pops its element -/
+example : (runLog step (init 2)
+    [.inv 0 true false 1, .alloc 0 10, .ld 0 ⟨0, 0, 0, 0⟩, .cas 0 true, .ret 0 true 0,
+     .inv 0 true false 2, .alloc 0 20, .ld 0 ⟨10, 10, 0, 1⟩, .link 0 20 10, .cas 0 true,
+     .inv 1 false false 0, .ld 1 ⟨20, 10, 2, 2⟩, .rd 1 ⟨10, 0⟩, .chk 1 true, .rd 1 ⟨0, 0⟩, .chk 1 true,
+     .lcas 1 true, .cas 1 true, .ld 1 ⟨20, 10, 0, 3⟩, .chk 1 true, .rd 1 ⟨10, 0⟩, .cas 1 true,
+     .free 1 20, .ret 1 true 2,
+     .rd 0 ⟨10, 0⟩, .chk 0 false, .ret 0 true 0]).map
+      (fun s => (s.pushed, s.popped, contents s, s.stale)) = some ([2, 1], [2], [1], false) := by
+  decide
 
 /-! ## Back-end adapters use the ends they claim -/
 
